@@ -12,7 +12,9 @@ from harness import execlib, serverlib, frontends
 from harness.c04 import gen_history
 
 ASSUMPTIONS = ['event loops and sockets are replaced by in-process fakes that hand each chunk to the real handler in order',
-               'requests are data-access requests (FC 1-6, 15, 16, 22, 23) plus unassigned function codes']
+               'requests of every class; the reply BYTES of the classes outside the modelled execute methods (diagnostics, identification, file '
+               'records, FIFO) are not compared with the model, their count / ids / function code are checked like all others',
+               'listen-only mode is not entered (Force Listen Only Mode is the one request excluded)']
 RULE = ('front-end x framer x {single, multi-unit hosted sets} x ignore_missing x broadcast x histories of 1..30 requests with '
         'random tids / unit ids (hosted, unhosted, 0, 255) x pipelining k in {1,2,3,all}; non-trivial = at least one response '
         'was produced; distinct by (configuration, byte history)')
@@ -21,7 +23,7 @@ RULE = ('front-end x framer x {single, multi-unit hosted sets} x ignore_missing 
 def gen_case(rng, frontend=None):
     fe = frontend or rng.choice(frontends.FRONTENDS)
     framer = rng.choice(serverlib.FRAMERS_FOR[fe])
-    single, units = serverlib.gen_units(rng, single=True if framer == 'tls' else None)
+    single, units = serverlib.gen_units(rng, single=True if framer == 'tls' else None, broken_p=rng.choice([0.0, 0.0, 0.3]))
     ignore = rng.random() < 0.5
     bcast = rng.random() < 0.4 and framer != 'tls'
     hosted = [u for u, _ in units]
@@ -33,6 +35,8 @@ def gen_case(rng, frontend=None):
         r = execlib.gen_req(rng, layout, [], 0.15)
         if rng.random() < 0.05:
             r = {'t': 'illegalFunction', 'fc': rng.choice(execlib.UNASSIGNED_FC[1:]), 'data': [0, 1, 0, 1]}
+        if rng.random() < 0.12:
+            r = {'t': 'raw', 'pdu': rng.choice(serverlib.OTHER_PDUS)}
         tid = rng.choice([0, 1, 0xFFFF, rng.randrange(65536)])
         if framer == 'tls':
             uid, tid = 0, 0       # a TLS record carries the bare PDU: the ids are the request object's defaults
@@ -40,12 +44,13 @@ def gen_case(rng, frontend=None):
             continue   # an unknown function code has no RTU frame length (C05 scope note)
         if framer == 'rtu' and 'raw' in r and len(r['raw']) != r.get('byte_count', r.get('write_byte_count')):
             continue   # on RTU the byte count field delimits the frame: a mismatch is a framing error, not a request
-        f = serverlib.frame_request(framer, r, uid, tid)
+        pdu = r['pdu'] if r['t'] == 'raw' else list(execlib.enc_req(r))
+        f = serverlib.frame_pdu(framer, pdu, uid, tid)
         if framer == 'binary' and any(b in (0x7B, 0x7D) for b in f[1:-1]):
             continue
         reqs.append(execlib.strip(r))
         frames.append(f)
-        meta.append({'uid': uid, 'tid': tid, 'fc': f and (execlib.enc_req(r)[0])})
+        meta.append({'uid': uid, 'tid': tid, 'fc': pdu[0]})
     if framer == 'tls':
         chunks = frames           # one PDU per TLS record, one record per read
         per_chunk = [[m] for m in meta]
@@ -99,15 +104,7 @@ def check(ctx, rep, cases, where='server history'):
         # the property on the real output
         for chunk_out, metas in zip(outs, c['per_chunk']):
             frames = chunk_out
-            if c['frontend'] == 'twistedTcp' and frames:
-                # one write per response, concatenated by the capture: split with a client receiver
-                from harness import framelib
-                calls = framelib.real_feed(c['framer'], 'client', [0], True, [frames[0]])
-                parsed = [{'uid': e['uid'], 'tid': e['tid'], 'msg': e['msg']} for e in calls[0]['events'] if 'msg' in e]
-                if calls[0]['buffered'] or any('raised' in e for e in calls[0]['events']):
-                    parsed.append({'unparsed': True})
-            else:
-                parsed = serverlib.parse_responses(c['framer'], frames)
+            parsed = serverlib.parse_responses(c['framer'], frames)
             expected = []
             for m in metas:
                 if not accepted_by_framer(c, m):
@@ -121,8 +118,7 @@ def check(ctx, rep, cases, where='server history'):
                     if 'msg' not in p:
                         ok = False
                         break
-                    fc = p['msg'].get('fc') if p['msg']['t'] == 'exception' else None
-                    same_fc = (fc == m['fc']) if fc is not None else True
+                    same_fc = p['fc'] in (m['fc'], m['fc'] | 0x80)
                     if c['framer'] != 'tls' and p['uid'] != m['uid']:
                         ok = False
                     if c['framer'] == 'tcp' and p['tid'] != m['tid']:
